@@ -67,8 +67,20 @@ func (g *gen) recoverNodes() {
 	g.add(jop{K: "hb"})
 }
 
+// starter: a periodic tick, a requested savepoint, or a tick upgraded to a savepoint by a request folding into it
+func (g *gen) starter() {
+	switch g.r.Intn(6) {
+	case 0, 1:
+		g.add(jop{K: "sp"})
+	case 2:
+		g.add(jop{K: "tick"}, jop{K: "sp"})
+	default:
+		g.add(jop{K: "tick"})
+	}
+}
+
 func (g *gen) checkpointRound(full bool) {
-	g.add(jop{K: "tick"})
+	g.starter()
 	if full {
 		g.add(jop{K: "ackall", N: g.r.Intn(1000)})
 		return
@@ -86,7 +98,11 @@ func (g *gen) noise() {
 	case 1:
 		g.add(jop{K: "ackm", Who: g.who(), N: g.r.Intn(g.wc), D: []int{-1, 1, 2}[g.r.Intn(3)]}) // wrong id
 	case 2:
-		g.add(jop{K: "tick"})
+		if g.r.Bool() {
+			g.add(jop{K: "tick"})
+		} else {
+			g.add(jop{K: "sp"})
+		}
 	case 3:
 		g.add(jop{K: "adv", N: g.r.Intn(g.deadline / 3)}, jop{K: "hb"})
 	case 4:
